@@ -9,7 +9,7 @@ import (
 )
 
 func Backend(t *rapid.T, label string) string {
-	return []string{"mem", "fs", "fsenc"}[Weighted(t, label, 50, 25, 25)]
+	return []string{"mem", "fs", "fsenc", "fsopt", "fsencopt"}[Weighted(t, label, 46, 20, 20, 7, 7)]
 }
 
 // Equivalent selecting-header spellings the cache documents (and C09 demands hits for):
